@@ -448,9 +448,9 @@ func gen(body []byte) *core.Verdict {
 
 func cfgs(tier string) []string {
 	if tier == "thorough" {
-		return []string{"raw5", "dq1_6", "dq2_6", "dq3_6", "pat_6", "patblk_5", "cmt_6", "sq_6", "cmttab_6", "sqtab_6", "mb_5", "wide_3", "tok5"}
+		return []string{"raw5", "dq1_6", "dq2_6", "dq3_6", "pat_6", "patblk_5", "cmt_6", "sq_6", "cmttab_6", "sqtab_6", "run_11", "yv_6", "mb_5", "wide_3", "tok5"}
 	}
-	return []string{"raw4", "dq1_5", "dq2_5", "dq3_5", "pat_5", "patblk_5", "cmt_5", "sq_5", "cmttab_5", "sqtab_5", "mb_4", "wide_2", "tok5"}
+	return []string{"raw4", "dq1_5", "dq2_5", "dq3_5", "pat_5", "patblk_5", "cmt_5", "sq_5", "cmttab_5", "sqtab_5", "run_10", "yv_5", "mb_4", "wide_2", "tok5"}
 }
 
 func check(r *core.Run, prop string) {
